@@ -144,71 +144,85 @@ Theorem c18_learned_address_confirmed : forall H p off c hl c' hl',
 Proof. intros H p off c hl c' hl' _. exact (learned_address_confirmed H p off c hl c' hl'). Qed.
 Print Assumptions c18_learned_address_confirmed.
 
-(* sentence 2a, as stated, is FALSE for the pinned tree (verifyRsaRule = 0,
-   re-read from crypto.go on every run): verifyRawCerts accepts a certificate
-   with an RSA public key when its signature algorithm is RSA-PSS (or any
-   non-RSA issuer signature).  Witness below, reproduced on the real code by
-   the harness (known_findings/C18.json). *)
-Theorem c18_verify_sound_refuted : pRsaRule cparams = 0 -> exists c hashes,
-  verify_raw_certs cparams [c] hashes = VOk /\ is_rsa c = true /\
-  monitor_verify [c] hashes (z_of_vres (verify_raw_certs cparams [c] hashes)) <> [].
-Proof. intros Hr. apply verify_refuted_gen; [exact Hr | apply c18_consts_wf]. Qed.
-Print Assumptions c18_verify_sound_refuted.
-
-(* sentence 2a under the hypothesis the proof forces ([rsa_recognised]: with
-   the pinned tree's RSA test, the signature is not RSA-PSS and an RSA public
-   key comes with a PKCS#1 v1.5 signature; with the repaired test — verifyRsaRule
-   = 1 — nothing): an accepted chain of the stated quantifier (length 0 or 1)
-   consists of one parseable certificate whose SHA-256, under the sha2-256
-   code, is in the dialed address, not RSA, valid for at most 14 days, and
-   NotBefore <= now <= NotAfter — i.e. the monitor run on the implementation
-   accepts whatever the model answers *)
-Theorem c18_verify_sound_partial : forall chain hashes,
-  (length chain <= 1)%nat -> Forall (rsa_recognised cparams) chain ->
-  monitor_verify chain hashes (z_of_vres (verify_raw_certs cparams chain hashes)) = [] /\
-  (verify_raw_certs cparams chain hashes = VOk ->
-   exists c, chain = [c] /\ In (SHA2_256, x_hash c) hashes /\ x_parse c = true /\ is_rsa c = false /\
-             x_na c - x_nb c <= spec_max_validity /\ x_nb c <= 0 <= x_na c).
+(* sentence 2a, about the certificate the verifier inspects — complete,
+   including "not RSA" (RSA public key, or any of the nine RSA signature
+   algorithms, PKCS#1 v1.5 and PSS): whenever verifyRawCerts accepts, the
+   inspected certificate parses, its SHA-256 under the sha2-256 code is in the
+   dialed address, it is not RSA, valid for at most 14 days, and
+   NotBefore <= now <= NotAfter.  Every chain, every hash list, no hypothesis. *)
+Theorem c18_verify_sound : forall chain hashes,
+  verify_raw_certs cparams chain hashes = VOk ->
+  exists c, inspected cparams chain = Some c /\ In (SHA2_256, x_hash c) hashes /\ x_parse c = true /\
+            is_rsa c = false /\ x_na c - x_nb c <= spec_max_validity /\ x_nb c <= 0 <= x_na c.
 Proof.
-  intros chain hashes Hl Hr. destruct c18_consts_wf as (_ & _ & HM). split.
-  - apply monitor_verify_ok; [rewrite HM; lia | exact Hl | exact Hr].
-  - intros Hv. destruct (verify_ok_inv _ _ _ Hv) as (pre & leaf & E & Ha & Hp & Hs & Hlife & Hb).
-    destruct chain as [|c [|c2 r]].
-    + destruct pre; discriminate.
-    + assert (pre = [] /\ leaf = c) as (-> & ->).
-      { destruct pre as [|a [|b r]]; cbn in E; [inversion E; auto | discriminate | discriminate]. }
-      exists c. split; [reflexivity|]. split; [apply mh_mem_In; exact Ha|]. split; [exact Hp|].
-      inversion Hr as [|? ? Hrec _]; subst. split.
-      * exact (rsa_test_false cparams c Hrec Hs).
-      * rewrite <- HM. split; assumption.
-    + cbn in Hl. lia.
+  intros chain hashes Hv. destruct c18_consts_wf as (_ & _ & HM).
+  destruct (verify_ok_inv _ _ _ Hv) as (c & E & Ha & Hp & Hs & Hl & Hb).
+  exists c. split; [exact E|]. split; [apply mh_mem_In; exact Ha|]. split; [exact Hp|].
+  split; [exact Hs|]. rewrite <- HM. split; assumption.
 Qed.
-Print Assumptions c18_verify_sound_partial.
+Print Assumptions c18_verify_sound.
 
-(* sentence 2a in full once the verifier's RSA test is the complete one *)
-Theorem c18_verify_sound_if_repaired : pRsaRule cparams <> 0 -> forall chain hashes,
-  (length chain <= 1)%nat ->
+(* a regression of the RSA rule is detected: with the test the tree had before
+   the repair (six PKCS#1 v1.5 SignatureAlgorithm values only) the two
+   certificate shapes of the repaired defect are accepted and the monitor
+   rejects that acceptance; the repaired model answers "cert uses RSA".  The
+   harness presents these shapes to the real verifier and to a real Dial on
+   every run (corpus.* counters; they must be refused). *)
+Theorem c18_rsa_regression_detected : forall c,
+  c = corpus_rsa_pss \/ c = corpus_rsa_key_ecdsa_sig ->
+  verify_with old_rsa_test cparams [c] [(SHA2_256, 1)] = VOk /\
+  monitor_verify [c] [(SHA2_256, 1)] (z_of_vres (verify_with old_rsa_test cparams [c] [(SHA2_256, 1)])) <> [] /\
+  verify_raw_certs cparams [c] [(SHA2_256, 1)] = VRsa.
+Proof. intros c Hc. apply rsa_regression_detected_gen; [apply c18_consts_wf | exact Hc]. Qed.
+Print Assumptions c18_rsa_regression_detected.
+
+(* sentence 2a, about WHICH certificate is inspected, is FALSE for the pinned
+   tree (verifyLeafLast = 1, re-read from crypto.go on every run): the
+   verifier hashes the LAST entry of the presented chain, TLS authenticates the
+   FIRST.  The chain [unpinned, pinned] is accepted although the server
+   certificate's SHA-256 is not in the address.  Reproduced on the real
+   verifier and by a real Dial (known_findings/C18.json). *)
+Theorem c18_verify_server_cert_refuted : pLeafLast cparams <> 0 ->
+  verify_raw_certs cparams [ex_unpinned; ex_pinned] [(SHA2_256, 2)] = VOk /\
+  advertises [(SHA2_256, 2)] (x_hash ex_unpinned) = false /\
+  monitor_verify [ex_unpinned; ex_pinned] [(SHA2_256, 2)]
+    (z_of_vres (verify_raw_certs cparams [ex_unpinned; ex_pinned] [(SHA2_256, 2)])) <> [].
+Proof. intros Hr. apply verify_chain_refuted_gen; [exact Hr | apply c18_consts_wf]. Qed.
+Print Assumptions c18_verify_server_cert_refuted.
+
+(* ... and holds under the hypothesis the proof forces ([inspects_server_cert]:
+   the chain has at most one entry (the single-certificate rows) or the
+   verifier looks at rawCerts[0]): the monitor run on the implementation accepts
+   whatever the model answers *)
+Theorem c18_verify_server_cert_partial : forall chain hashes,
+  inspects_server_cert cparams chain ->
   monitor_verify chain hashes (z_of_vres (verify_raw_certs cparams chain hashes)) = [].
 Proof.
-  intros Hr chain hashes Hl.
-  apply (proj1 (c18_verify_sound_partial chain hashes Hl (rsa_rule1_recognised cparams chain Hr))).
+  intros chain hashes Hi. destruct c18_consts_wf as (_ & _ & HM).
+  apply monitor_verify_ok; [rewrite HM; lia | exact Hi].
 Qed.
-Print Assumptions c18_verify_sound_if_repaired.
+Print Assumptions c18_verify_server_cert_partial.
+
+(* ... for every chain once the verifier inspects rawCerts[0] *)
+Theorem c18_verify_server_cert_if_repaired : pLeafLast cparams = 0 -> forall chain hashes,
+  monitor_verify chain hashes (z_of_vres (verify_raw_certs cparams chain hashes)) = [].
+Proof. intros Hr chain hashes. apply c18_verify_server_cert_partial. left. exact Hr. Qed.
+Print Assumptions c18_verify_server_cert_if_repaired.
 
 (* sentence 2b: the dialer completes the connection only if the certificate
    check passed AND the server's early data decoded AND every hash of the
    dialed address is in it; and the dial monitor accepts the model's answers
-   (same hypothesis as above for the certificate) *)
+   (same hypothesis as above about the inspected certificate) *)
 Theorem c18_dialer_requires_confirmation : forall chain addr dec srv,
   (dial cparams chain addr dec srv = 0 ->
    verify_raw_certs cparams chain addr = VOk /\ dec = true /\ forall h, In h addr -> In h srv) /\
-  ((length chain <= 1)%nat -> Forall (rsa_recognised cparams) chain ->
+  (inspects_server_cert cparams chain ->
    monitor_dial chain addr dec srv (dial cparams chain addr dec srv) = []).
 Proof.
   intros chain addr dec srv. split.
   - apply dial_connected_inv.
-  - intros Hl Hr. destruct c18_consts_wf as (_ & _ & HM).
-    apply monitor_dial_ok; [rewrite HM; lia | exact Hl | exact Hr].
+  - intros Hi. destruct c18_consts_wf as (_ & _ & HM).
+    apply monitor_dial_ok; [rewrite HM; lia | exact Hi].
 Qed.
 Print Assumptions c18_dialer_requires_confirmation.
 
@@ -284,6 +298,10 @@ Example monitor_rejects_bad_accepts :
   monitor_case [2; 1; 1; 1; 0; 0; -10; 1209600000000000;  1; 18; 1;  0] <> [] /\
   monitor_case [2; 1; 1; 1; 1; 1; -10; 5;   1; 18; 1;  0] <> [] /\
   monitor_case [2; 0;  1; 18; 1;  0] <> [] /\
+  monitor_case [2; 1; 1; 1; 1; 2; -10; 5;   1; 18; 1;  0] <> [] /\
+  monitor_case [2; 1; 1; 1; 1; 0; -10; 5;   1; 18; 1;  0] <> [] /\
+  monitor_case [2; 2; 1; 1; 0; 0; -10; 5;  2; 1; 0; 0; -10; 5;   1; 18; 2;  0] <> [] /\
+  monitor_case [2; 2; 1; 1; 0; 0; -10; 5;  2; 1; 0; 0; -10; 5;   1; 18; 1;  0] = [] /\
   monitor_case [2; 1; 1; 1; 0; 0; -10; 5;   1; 18; 1;  0] = [] /\
   monitor_case [3; 1; 1; 1; 0; 0; -10; 5;   2; 18; 1; 18; 2;  1;  1; 18; 1;  0] <> [] /\
   monitor_case [3; 1; 1; 1; 0; 0; -10; 5;   2; 18; 1; 18; 2;  1;  2; 18; 2; 18; 1;  0] = [].
